@@ -257,11 +257,13 @@ def main(argv):
             # A proof (or a reflective obligation over regenerated facts) no longer compiles.  The models
             # contain no proofs (Cxx/Model.v), so they may still build: run them anyway, so that the spec
             # oracle can look for a concrete failing input (DESIGN.md section 2, violation protocol).
-            rcm, outm = sh("timeout 3000 make -j16 theories/Extract/Dispatch.vo", cwd=COQ, timeout=3100)
+            rcm, outm = sh("timeout 3000 make -k -j16 theories/Extract/Dispatch.vo", cwd=COQ, timeout=3100)
             okd, outd = build_driver() if rcm == 0 else (False, "coq build failed")
         okh, outh = build_gen_and_harness()
-        if prop.get("race") and tier == "thorough":
+        if prop.get("race") and (tier == "thorough" or prop.get("race_quick")):
             okr, outr = build_gen_and_harness(race=True, name="zapdrive-race")
+            if not okr:
+                notes.append("race-instrumented harness did not build: " + outr[-500:])
         chk = None
         if tier == "thorough" and okc and prop.get("coqchk", True) and os.environ.get("VERIF_NO_COQCHK") != "1":
             mod = "Zap." + prop["coq_props"].replace("theories/", "").replace(".v", "").replace("/", ".")
